@@ -4,6 +4,14 @@ import json, glob, os, re
 V = os.path.dirname(os.path.abspath(__file__))
 # what had to be strengthened before the check caught the change (hand-maintained)
 STRENGTHENED = {
+ "C02c-m1": "exact-seam points on every n-ary node (box-edge arrangement, bisection to exact zeros, dyadic layouts in every operand order); same stratum in C16",
+ "C06c-m2": "over-estimating sign-correct fields (gain 2/10/1000, constant or growing) for the uniform renderers, with a metamorphic triangle-count / vertex oracle; also in C05, C08",
+ "C06c-m3": "one renderer value over a history of models of different size and cell count, Info-only steps, compared bit for bit with fresh values; every triangle inside one lattice cell; also in C05, C07, C08, C09",
+ "C12c-m3": "one-process histories with GOMAXPROCS lowered / raised between and during renders, concurrent renders, GC and idle gaps; flat-after-warm-up oracle independent of NumCPU",
+ "C13c-m1": "write schedules laid out around tBufferSize (single writes >= threshold onto a non-empty buffer, re-used scratch slices, re-entrant and concurrent writers) compared with SaveSTL byte for byte",
+ "C13c-m3": "file histories for SaveSTL and ToSTL (path holding a longer / shorter / garbage / ASCII file, same path twice by every pair of writers)",
+ "C16c-m1": "re-entrant and gated operand probes (an operand whose Evaluate makes another evaluation of the enclosing shape happen) over 64 operand holders, operand counts 1..300; shared with C10, which now reports such changes with a failing input",
+ "C17c-m3": "every builder value rendered as a history (Vertices()/Polygon()/Mesh2D() 2-5 times, staged Add/Close/Reverse in between) against the model run as a state machine (Sdf/C17Hist.v)",
  "C02-m2": "cache histories now include near-duplicate queries (points equal to ~1e-10 / one ulp)",
  "C09-m1": "layer cases larger than the evaluation queue (109x109, 127x127 points)",
  "C09-m2": "render-history stratum (two models with the same envelope back to back); a render that never evaluates its model is a failing input, not a harness error",
